@@ -33,14 +33,19 @@ CLAIMED.update({
            '64-bit start/stop/at values (regularize_rangeslice: every value, no size bound), lists <= 2/3 of length <= 3/4, |step| <= 2/3. C++ method level: getitem_at / getitem_range (wrap, clamp, hand-over to the content) and '
            'getitem_next(SliceAt / SliceRange / SliceArray64) of ListOffsetArray64, ListArray64 and RegularArray run from their IR on nodes with symbolic buffers '
            '(list lengths case-split, origins / gaps / index values symbolic) over an opaque content; the real result objects are decoded from memory and compared with '
-           'Python indexing applied to the nested list of atoms.',
-           'Kernel, kernel-pipeline and single-node method level: Content::getitem tuple orchestration (several items at once), NumpyArray strided getitem, toslice() (pybind11), field/ellipsis/newaxis items and the '
-           'jagged-slice kernels are outside this claim. Trusted: IR encoder, z3, the CPython slice model in hlib.py.', 'DESIGN.md sections 3 (C01) and 9.5', 'SMT bounded model checking of kernel and C++ method LLVM IR (llbmc + z3; node-method harness with an opaque content) against independent oracles; native replay (ASan kernels, whole-library akrun)'),
+           'Python indexing applied to the nested list of atoms; the same items passing through the five option-type / indexed classes; a second index array arriving with a '
+           'symbolic pairing (NumPy advanced indexing) at the three list classes; Content::getitem_next for an ellipsis / newaxis followed by any mix of integer, range, index-array (1-d, 2-d) and newaxis items on a node '
+           'of symbolic depth range (the ellipsis is consumed exactly when the items account for every dimension below; refused for branches of different depth); Content::getitem_next(SliceMissing64) '
+           '(index array with None: None exactly where the index is negative, the right item of every row elsewhere); carry of seven node classes; NumpyArray::getitem on strided views.',
+           'Kernel, kernel-pipeline and single-node method level: the entry Content::getitem wrapper, toslice() (pybind11), field items, jagged slices at the C++ level (kernels only) and slices with several index arrays '
+           'beyond two are outside this claim. Trusted: IR encoder, z3, the CPython slice model in hlib.py.', 'DESIGN.md sections 3 (C01) and 9.5', 'SMT bounded model checking of kernel and C++ method LLVM IR (llbmc + z3; node-method harness with an opaque content) against independent oracles; native replay (ASan kernels, whole-library akrun)'),
  'C03': mc('Bounded model checking of every leaf reducer specialization (fold per group with identity, first extremum for arg-reducers, '
            'wrap-around in the output type, float kernels same order/precision) and of the local and non-local branches of '
            'ListOffsetArray64::reduce_next wired kernel-by-kernel with the buffer sizes the C++ allocates, against a per-(group, depth) fold oracle. C++ method level: ListOffsetArray64::reduce_next (reduction below the list level) from its IR: the content receives '
-           'exactly the covered elements, parents[k] = list of element k, starts[i] = position of list i in what is handed over; results come back one per list.',
-           'Outside: Content::reduce axis normalisation, keepdims/mask_identity wrapping, option/record/union nodes, axis=None, complex/datetime. '
+           'exactly the covered elements, parents[k] = list of element k, starts[i] = position of list i in what is handed over; results come back one per list; IndexedOptionArray64::reduce_next at the leaf level; '
+           'Content::reduce axis normalisation (any axis, any depth, branching or not); every Reducer*::apply_<dtype> of Reducer.cpp (10 reducers x bool, 8 integer types, float32/64, datetime/timedelta for order reducers) from its IR '
+           'together with the dispatched kernel on symbolic data with a concrete group assignment including an empty group: documented output type, fold from the identity, a member that no member beats, first such position, -1 / identity for an empty group.',
+           'Outside: keepdims/mask_identity wrapping, record/union nodes, axis=None, complex types, NaN ordering, explicit `initial=`; prod of floats for groups of more than 2. '
            'Bounds: <= 3/4 elements, <= 2/3 groups, non-local lists <= 3 of length <= 2/3 (lengths case-split), products with the group assignment case-split.',
            'DESIGN.md sections 3 (C03) and 9.5', 'SMT bounded model checking of kernel and C++ method LLVM IR (llbmc + z3; node-method harness with an opaque content) against independent oracles; native replay (ASan kernels, whole-library akrun)'),
  'C04': mc('Narrow claim: the three list re-alignment kernels behind broadcasting - equal lengths align element for element, unequal lengths '
@@ -59,8 +64,9 @@ CLAIMED.update({
  'C08': mc('Bounded model checking of the fill/shift/simplify kernels: element j of a part lands at tooffset + j, indexes shifted by exactly the '
            'content base, missing stays missing, numeric fills equal an independently stated C cast, nothing outside the destination range is written. C++ method level: mergemany of IndexedArray / IndexedOptionArray operands of every index width '
            '(entries in order, None stays None, option-ness kept), NumpyArray::mergemany of contiguous int64 arrays of any rank (values and buffer bounds), '
-           'UnionArray8_64::simplify_uniontype over a nested union with and without mergeable contents.',
-           'Outside: mergeable/mergemany dispatch, NumPy promotion table, ak.concatenate(axis>0) in Python; float->int casts outside the target range (UB) assumed away.',
+           'UnionArray8_64::simplify_uniontype over a nested union with and without mergeable contents; reverse_merge of every indexed / option index width (an array followed by an indexed one); '
+           'RecordArray::mergemany of tuples (first operand trimmed to its length, field-less records keep their count); mergemany of ListOffsetArray64 / ListArray64 / RegularArray operands in any mix (each list keeps its elements, whatever the origins, gaps or unreachable content).',
+           'Outside: records matched by field name (std::string keys), mergeable dispatch, NumPy promotion table, ak.concatenate(axis>0) in Python; float->int casts outside the target range (UB) assumed away.',
            'DESIGN.md sections 3 (C08) and 9.5', 'SMT bounded model checking of kernel and C++ method LLVM IR (llbmc + z3; node-method harness with an opaque content) against independent oracles; native replay (ASan kernels, whole-library akrun)'),
  'C09': mc('Bounded model checking of the rpad pipelines (length kernel sizes the index buffer of the fill kernel) for ListArray, ListOffsetArray, '
            'RegularArray against the pad law, and of ten option-encoding kernels against one shared validity vector (index<0, byte mask either polarity, '
@@ -130,7 +136,8 @@ CLAIMED.update({
            'ForthInputBuffer::read/seek/skip for every 64-bit argument (exact outcome); (c) typed output writes; (d) whole programs: ~45 templates with do/loop/+loop, '
            'nested loops, if/else, begin/until/while/again, user words with exit, halt, variables, typed little/big-endian and repeated reads, seek/skip, compiled by the '
            'repository compiler and run through the real step() / resume() from the IR on symbolic stack cells and input bytes: final stack, variables, input position '
-           'and error equal the documented result, and one uninterrupted run, repeated single steps and the same program with pause words resumed until done agree.',
+           'and error equal the documented result, and one uninterrupted run, repeated single steps and the same program with pause words resumed until done agree; (e) write_add_int32/int64 (`+<-`) of '
+           'integer and floating-point output buffers: previous item (any bit pattern) plus the value, summed exactly in the output type.',
            'Tokenizer/compiler/decompiler are exercised only on the concrete templates; float / nbit / varint / textual reads and output writes at program level, and '
            'recursion-limit faults are outside. Case guards fix trip counts (<= 4) and branch outcomes; other values symbolic. Struct layout from the IR type table.',
            'DESIGN.md sections 3 (C19) and 9.5', 'SMT bounded model checking of C++ method LLVM IR (llbmc M-harness); native replay through the real compiler and interpreter'),
